@@ -459,8 +459,8 @@ func (e *specEval) ruleOutcomes(rule *Obj) map[string]outcome {
 	id := rule.field("id").v.(int64)
 	st := sstate{pos: "E", tok: "K", know: map[string]string{}}
 	add := func(kind string, s sstate) {
-		o := outcome{Kind: kind, Pos: s.pos, Tok: s.tok, Hist: s.hist}
-		out[normOutcome(o)] = o
+		o := outcome{Kind: kind, Pos: s.pos, Tok: s.tok, Hist: s.hist, Know: copyKnow(s.know)}
+		out[normOutcome(o)+" given "+knowKey(o.Know)] = o
 	}
 	if e.ast {
 		st.hist = append(st.hist, fmt.Sprintf("memo?(%d,E)", id))
